@@ -12,8 +12,8 @@ from .c04 import taste_both, enumerate_plans
 
 ID = "C20"
 LEVEL = "fault_enumeration"
-BUDGET = {"quick": 320, "thorough": 6400}
-WALL_CAP = {"quick": 420, "thorough": 3300}
+BUDGET = {"quick": 2000, "thorough": 40000}
+WALL_CAP = {"quick": 600, "thorough": 5400}
 RULE = ("case = generated 2D/3D plotfile x drawn level limit x all C04 storage-fault operators plus accept-biased "
         "edits (whitespace in level-header lines, '+0'/zero-padded offset spellings, FabOnDisk positions moved by "
         "1/5/8/64 bytes or into a payload, FabOnDisk keyword changed, FAB descriptor prefix edited, consistently "
